@@ -550,7 +550,7 @@ const NO_EVENT: EventRec = EventRec { topics: Words::new(), data: Short::zero(),
 const NO_CALL: CallRec = CallRec { callee: 0, func: 0, args: Words::new(), ret: Short::zero(), seq: 0 };
 const NO_DEPLOY: DeployRec = DeployRec { deployer: 0, salt: [0; 4], wasm: [0; 4], address: 0, args: Words::new(), seq: 0 };
 /// capacity of the effect logs
-pub const LCAP: usize = 6;
+pub const LCAP: usize = 8;
 pub struct Host {
     pub instance: Map,
     pub persistent: Map,
@@ -568,6 +568,8 @@ pub struct Host {
     pub n_wasm_updates: usize,
     pub timestamp: u64,
     pub sequence: u32,
+    /// network setting `max_entry_ttl` (arbitrary, fixed during a run)
+    pub max_ttl: u32,
     pub current: u64,
     pub seq: u32,
 }
@@ -588,6 +590,7 @@ pub static mut HOST: Host = Host {
     n_wasm_updates: 0,
     timestamp: 0,
     sequence: 0,
+    max_ttl: 0,
     current: 0,
     seq: 0,
 };
@@ -604,6 +607,7 @@ pub fn fresh_host() -> &'static mut Host {
     let h = host();
     h.timestamp = nondet();
     h.sequence = nondet();
+    h.max_ttl = nondet();
     h.current = nondet();
     h
 }
@@ -1109,6 +1113,7 @@ pub fn given_occupied(a: u64, v: bool) {
 // ---- concrete byte contents (codec harnesses only): a small inline table, no heap
 pub const CMAX: usize = 640;
 pub const CSLOTS: usize = 4;
+pub const CONTENT_ID_BASE: u64 = 0xC0DE_0000_0000_0000;
 pub struct ContentTable {
     pub n: usize,
     pub id: [u64; CSLOTS],
@@ -1148,13 +1153,10 @@ pub fn content_id(s: &[u8]) -> u64 {
     if t.n >= CSLOTS {
         harness_bug("content table capacity");
     }
-    let id: u64 = nondet();
-    assume(id != crate::EMPTY_ID);
-    let mut j = 0;
-    while j < t.n {
-        assume(t.id[j] != id);
-        j += 1;
-    }
+    // The identity of registered content is a CONSTANT (slot-derived, even, never EMPTY_ID; literal
+    // strings without registered content have odd ids): the model checker only folds comparisons of
+    // constants, and lengths / loop bounds derived from a registered content must stay concrete.
+    let id: u64 = CONTENT_ID_BASE + 2 * (t.n as u64);
     let k = t.n;
     t.id[k] = id;
     t.len[k] = s.len();
@@ -1216,10 +1218,33 @@ pub const OPERATOR_KEY: UnitKey = UnitKey("Interfaces_Operator");
 pub const MIGRATING_KEY: UnitKey = UnitKey("Interfaces_Migrating");
 
 pub static mut ABSTRACT_CONTENT_TAKEN: Option<u64> = None;
-pub fn has_content(id: u64) -> bool {
-    if id == crate::EMPTY_ID {
-        return true;
+/// length of a registered content (first slot with this identity; 0 if there is none) — no heap
+/// allocation, so the length stays a constant for the model checker whenever the slot is decided
+pub fn content_len(id: u64) -> usize {
+    let t = unsafe { &mut CONTENT };
+    let mut k = 0;
+    while k < t.n {
+        if t.id[k] == id {
+            return t.len[k];
+        }
+        k += 1;
     }
+    0
+}
+/// byte `i` of a registered content (first slot with this identity)
+pub fn content_byte(id: u64, i: usize) -> u8 {
+    let t = unsafe { &mut CONTENT };
+    let mut k = 0;
+    while k < t.n {
+        if t.id[k] == id {
+            return t.bytes[k][i];
+        }
+        k += 1;
+    }
+    0
+}
+pub fn has_content(id: u64) -> bool {
+    // table first: for a registered identity the answer is a constant for the model checker
     let t = unsafe { &mut CONTENT };
     let mut k = 0;
     let mut r = false;
@@ -1229,7 +1254,7 @@ pub fn has_content(id: u64) -> bool {
         }
         k += 1;
     }
-    r
+    r || id == crate::EMPTY_ID
 }
 /// a contract stub consumes the identity of the abstract byte string whose content was requested
 /// (None: the content handed out was concrete)
